@@ -177,6 +177,12 @@ Inductive jsim : jtree -> jtree -> Prop :=
     jsim (JAgg (fun v => v) add without grouping (inst s (concat (map fst (p :: ps))) (concat (map snd (p :: ps)))))
          (JAgg (fun v => v) add without grouping
                (jcoalesce (remote_of add without grouping s p) (map (remote_of add without grouping s) ps)))
+| sim_count conv without grouping s p ps :
+    (forall a b, conv (a + b)%nat = conv a + conv b) -> sok s -> part_ok p -> Forall part_ok ps ->
+    jsim (JCount conv without grouping (inst s (concat (map fst (p :: ps))) (concat (map snd (p :: ps)))))
+         (JAgg (fun v => v) Z.add without grouping
+               (jcoalesce (JRemote (JCount conv without grouping (inst s (fst p) (snd p))))
+                          (map (fun q => JRemote (JCount conv without grouping (inst s (fst q) (snd q)))) ps)))
 | sim_map drops f t t' : jsim t t' -> jsim (JMap drops f t) (JMap drops f t')
 | sim_join p l l' r r' : jsim l l' -> jsim r r' -> jsim (JJoin p l r) (JJoin p l' r')
 | sim_aggc init add without grouping t t' :
@@ -200,9 +206,24 @@ Proof.
     rewrite (IH q). reflexivity.
 Qed.
 
+Lemma jref_coalesce_count lb conv without grouping s p ps ts :
+  jref lb (jcoalesce (JRemote (JCount conv without grouping (inst s (fst p) (snd p))))
+                     (map (fun q => JRemote (JCount conv without grouping (inst s (fst q) (snd q)))) ps)) ts =
+  Some (concat (map (fun q => rcount conv without grouping (pref lb s (fst q) (snd q) ts)) (p :: ps))).
+Proof.
+  revert p. induction ps as [|q ps IH]; intros p.
+  - cbn [map jcoalesce concat jref]. rewrite jref_inst, app_nil_r. reflexivity.
+  - cbn [map jcoalesce]. cbn [jref]. rewrite jref_inst.
+    change (jref lb (jcoalesce (JRemote (JCount conv without grouping (inst s (fst q) (snd q))))
+                               (map (fun q0 => JRemote (JCount conv without grouping (inst s (fst q0) (snd q0)))) ps)) ts)
+      with (jref lb (jcoalesce (JRemote (JCount conv without grouping (inst s (fst q) (snd q))))
+                               (map (fun q0 => JRemote (JCount conv without grouping (inst s (fst q0) (snd q0)))) ps)) ts).
+    rewrite (IH q). reflexivity.
+Qed.
+
 Theorem jsim_requiv lb t t' : jsim t t' -> requiv lb t t'.
 Proof.
-  induction 1 as [t|ls sers ls' sers' off pin Hl Hl' Pc|keep fn range ls sers ls' sers' off pin Hl Hl' Pc|s p ps Hs Hp Hps|add without grouping s p ps Ha Hc Hs Hp Hps|drops f t t' _ IH|p l l' r r' _ IHl _ IHr
+  induction 1 as [t|ls sers ls' sers' off pin Hl Hl' Pc|keep fn range ls sers ls' sers' off pin Hl Hl' Pc|s p ps Hs Hp Hps|add without grouping s p ps Ha Hc Hs Hp Hps|conv without grouping s p ps Hconv Hs Hp Hps|drops f t t' _ IH|p l l' r r' _ IHl _ IHr
                  |init add without grouping t t' L1 L2 _ IH|conv without grouping t t' _ IH|bottom k without grouping t t' _ IH
                  |t t' _ IH|l l' r r' _ IHl _ IHr|t t' _ IH]; intros ts.
   - apply oequiv_refl.
@@ -217,6 +238,10 @@ Proof.
     rewrite (pref_concat s Hs lb (p :: ps) ts (Forall_cons p Hp Hps)). unfold oequiv.
     rewrite <- (map_map (fun q => pref lb s (fst q) (snd q) ts) (fun X => ref_agg (fun v => v) add without grouping X)).
     apply (ref_agg_distributes_list add Ha).
+  - cbn [jref]. rewrite jref_inst, jref_coalesce_count.
+    rewrite (pref_concat s Hs lb (p :: ps) ts (Forall_cons p Hp Hps)). unfold oequiv.
+    rewrite <- (map_map (fun q => pref lb s (fst q) (snd q) ts) (fun X => rcount conv without grouping X)).
+    apply (count_distributes_list conv Hconv).
   - specialize (IH ts). cbn [jref]. destruct (jref lb t ts), (jref lb t' ts); simpl in *; try tauto. apply flat_map_perm. exact IH.
   - specialize (IHl ts). specialize (IHr ts). cbn [jref].
     destruct (jref lb l ts) as [L|], (jref lb l' ts) as [L'|]; simpl in IHl; try tauto;
